@@ -83,6 +83,23 @@ CORPUS = [
      [((0, 0, 0), 'm1_-1.0'), ((1.5, 0, 0), 'm1_-1.0'),
       ((2.5, 0, 0), 'm1_-1.1e-0'), ((3.5, 0, 0), 'm2_-7.8e0')],
      {'m1_-1.0', 'm1_-1.1e-0', 'm2_-7.8e0'}),
+    # FILL=n of the lattice's own universe with the --lattice option: every
+    # element is the lattice cell itself
+    ('homogeneous-own-lattice', '''corpus homogeneous lattice
+1 0 -1 fill=1 imp:n=1
+2 0 1 imp:n=0
+3 3 -2.70 -2 3 -4 5 lat=1 u=1 fill=1 imp:n=1
+
+1 so 2.5
+2 px 1
+3 px -1
+4 py 1
+5 py -1
+
+''' + MATS, ['--lattice', '3,-1:1,-1:1'],
+     [((0, 0, 0), 'm3_-2.7'), ((1.5, 0.2, 0), 'm3_-2.7'),
+      ((-1.5, 1.5, 0.3), 'm3_-2.7'), ((0.2, -1.7, 1), 'm3_-2.7')],
+     {'m3_-2.7'}),
     # the two spellings repaired in /repo 6d1467b
     ('repaired-spellings', '''corpus repaired
 1 1 -1.0 -1 imp:n=1
